@@ -11,7 +11,7 @@ import (
 )
 
 var c08Bin = []string{"+", "-", "*", "/", "//", "%", ">=", "<=", "!=", "==", ">", "<", "and", "or",
-	"like", "in", "hasprefix", "hassuffix", "notin", ":="}
+	"like", "in", "hasprefix", "hassuffix", "notin", ":", "=", ":="}
 var c08Pre = []string{"-", "+", "not "}
 
 // c08Corpus: the inputs of the repaired defects and of the known findings come first.
@@ -23,6 +23,9 @@ var c08Corpus = []string{
 	`"a\\"`, `"\\"`, `'a\\'`, `x := "a\\"; x`, "\"a\\u005c\"",
 	`r"{{a}}"`, `r'x'`, `"{{a}}"`, `x := r"a\n"`,
 	"/* a */ /* b */ x", "if a { /* c */ b }", "a # c", "a /* c */", "/* a\nb */ x", "x\n\n\ny",
+	"7 * ((3 % 2) / 2)", "7 * ((3 // 2) * 2)", "7 * ((3 * 2) / 2)", "a * ((a % a) / a)", "+(not t * ((-1) / (not l)))",
+	"(return a) + b", "a + (return b) + c", "not (return b) and c", "func g() {\nx := (return 1) + 2\n}\ng()", "return a + b",
+	"-suppresses a", "not priority 1", "a + kindmatch b", "x := \"\u0378\"", "\"\ufffe\"", "\"\U000e0001\"",
 	"x := a([1,2,3,4,5])[0]", "x := (let a) + 1", "sink s kindmatch [\"a\"], priority (1 + 2) { a }", "try { a }\n\nexcept { b }",
 	"mutex m { a }\nb", "(a == (not b)) == c", "(a - (not b)) - c", "(a == not b) in [true,false]", "\"100%\"", "\"\\xff\\xfe\"", "\"caf\\xe9\"",
 	"\"\xff\"", "a; -a", "x; (a + b) * c", "x.y(1); (a or b) and c", "x := 1; (a + b) * c", "if true { a }", "if f { a } elif true { b }", "x.rec(1 # c\n)", "return /* c */ a", "mutex m {\na\n}\nb",
@@ -39,7 +42,7 @@ func c08Gen(g *Gen) {
 		seen[src] = true
 		nEmit++
 		ff := nEmit%8 == 0
-		for _, k := range []string{"corpus", "string", "stmt.single", "container", "bytes"} {
+		for _, k := range []string{"corpus", "string", "stmt.single", "container", "bytes", "runes"} {
 			if strings.HasPrefix(kind, k) {
 				ff = true
 			}
@@ -126,7 +129,24 @@ func c08Gen(g *Gen) {
 			return r
 		}
 		for _, e := range trees(3) {
-			emit("nest3.all", e, false)
+			emit("nest3.all", e, true)
+		}
+	}
+
+	// ---- a product in front of a bracketed chain of multiplicative operators: every combination of * / // % at
+	// every position of the left spine, with numbers whose values tell the associations apart
+	mulOps := []string{"*", "/", "//", "%"}
+	for _, o1 := range mulOps {
+		for _, o2 := range mulOps {
+			emit("mulchain", fmt.Sprintf("7 * (3 %s 2)", o1), true)
+			emit("mulchain", fmt.Sprintf("7 * ((9 %s 5) %s 2)", o1, o2), true)
+			emit("mulchain", fmt.Sprintf("7 * (9 %s (5 %s 2))", o1, o2), true)
+			emit("mulchain", fmt.Sprintf("7 %s (9 %s 5)", o1, o2), true)
+			for _, o3 := range mulOps {
+				emit("mulchain", fmt.Sprintf("7 * (((11 %s 5) %s 3) %s 2)", o1, o2, o3), true)
+				emit("mulchain", fmt.Sprintf("x := 7 * ((-11 %s (5 + 1)) %s 3) %s 2", o1, o2, o3), true)
+				emit("mulchain", fmt.Sprintf("7 * ((a %s b) %s (c %s 5))", o1, o2, o3), true)
+			}
 		}
 	}
 
@@ -141,6 +161,25 @@ func c08Gen(g *Gen) {
 		for _, at := range []string{"kindmatch", "scopematch", "statematch", "priority", "suppresses"} {
 			emit("keyword.sink", fmt.Sprintf("sink s kindmatch [\"a\"], %s %s { a }", at, e), true)
 			emit("keyword.sink", fmt.Sprintf("sink s %s %s, priority 1 { a }", at, e), true)
+		}
+	}
+	for _, kw := range []string{"return", "kindmatch", "scopematch", "statematch", "priority", "suppresses", "let", "not"} {
+		for _, o := range c08Bin {
+			emit("keyword.operand", fmt.Sprintf("(%s a) %s b", kw, o), true)
+			emit("keyword.operand", fmt.Sprintf("a %s (%s b)", o, kw), true)
+			emit("keyword.operand", fmt.Sprintf("a %s %s b", o, kw), true)
+			emit("keyword.operand", fmt.Sprintf("a %s (%s b) %s c", o, kw, o), true)
+			emit("keyword.operand", fmt.Sprintf("%s a %s b", kw, o), true)
+			emit("keyword.operand", fmt.Sprintf("%s (a %s b)", kw, o), true)
+			for _, p := range c08Pre {
+				emit("keyword.operand", fmt.Sprintf("%s(%s a) %s b", p, kw, o), true)
+			}
+			emit("keyword.operand", fmt.Sprintf("func g() {\nx := (%s 1) %s 2\nx\n}\ng()", kw, o), true)
+		}
+		for _, p := range append(append([]string{}, c08Pre...), "let ", "return ", "priority ") {
+			emit("keyword.operand", fmt.Sprintf("%s(%s a)", p, kw), true)
+			emit("keyword.operand", fmt.Sprintf("%s%s a", p, kw), true)
+			emit("keyword.operand", fmt.Sprintf("%s a; %s%s b", kw, p, kw), true)
 		}
 	}
 	for _, o := range c08Bin {
@@ -194,6 +233,28 @@ func c08Gen(g *Gen) {
 		}
 	}
 	brec("", 0)
+
+	// ---- runes beyond Latin-1: printable and not, non-characters, unassigned, surrogates (rejected by the lexer),
+	// written with escapes and as raw UTF-8
+	ratoms := []string{`\u0378`, `\ufffe`, `\U000e0001`, `\u200b`, `\u4e2d`, `\U0001f600`, "中", "😀", "\u0378", "\ufffe",
+		`\ud800`, `\u00ad`, "\u00ad", `\u2028`, "\u2028", `\ufeff`, `\U0010ffff`, "\U0010ffff", `\u0100`, "ā", `\uffff`, "\U000e0001", "a", `\\`}
+	rmax := 2
+	if g.Thorough() {
+		rmax = 3
+	}
+	var rrec func(prefix string, n int)
+	rrec = func(prefix string, n int) {
+		for _, f := range [][2]string{{`"`, `"`}, {`'`, `'`}, {`r"`, `"`}} {
+			emit("runes", f[0]+prefix+f[1], true)
+		}
+		if n == rmax {
+			return
+		}
+		for _, a := range ratoms {
+			rrec(prefix+a, n+1)
+		}
+	}
+	rrec("", 0)
 
 	// ---- statement kinds nested pairwise
 	outer := []string{
@@ -387,9 +448,7 @@ func c08Gen(g *Gen) {
 		emit("random.expr", c08RandOpExpr(g.R, 2+g.R.Intn(3)), true)
 	}
 	for k := 0; k < nProg; k++ {
-		// not evaluated: random programs contain endless loops, e.g. `for q in [1,2] > [3] { continue }` is read as
-		// the condition loop `for (q in [1,2]) > [3] {…}` whose guard stays true (string comparison fallback)
-		emit("random.program", c08RandStmts(g.R, 3), false)
+		emit("random.program", c08RandStmts(g.R, 3), true)
 	}
 }
 
@@ -402,7 +461,7 @@ func c08RandOpExpr(r *Rand, d int) string {
 	case 0, 1:
 		s = r.Pick(c08Pre) + c08RandOpExpr(r, d-1)
 	default:
-		s = c08RandOpExpr(r, d-1) + " " + r.Pick(c08Bin[:19]) + " " + c08RandOpExpr(r, d-1)
+		s = c08RandOpExpr(r, d-1) + " " + r.Pick(c08Bin[:len(c08Bin)-1]) + " " + c08RandOpExpr(r, d-1)
 	}
 	if r.Intn(2) == 0 {
 		s = "(" + s + ")"
@@ -437,6 +496,16 @@ func c08RandExpr(r *Rand, d int) string {
 	return "[" + strings.Join(a, ", ") + "]"
 }
 
+// c08RandGuard: an expression without `{` (inside a guard every left brace starts the block)
+func c08RandGuard(r *Rand) string {
+	for i := 0; i < 20; i++ {
+		if e := c08RandExpr(r, 1); !strings.Contains(e, "{") {
+			return e
+		}
+	}
+	return "t"
+}
+
 func c08RandBlock(r *Rand, d int) string { return "{ " + c08RandStmts(r, d-1) + " }" }
 
 func c08RandStmt(r *Rand, d int) string {
@@ -452,7 +521,7 @@ func c08RandStmt(r *Rand, d int) string {
 		case 3:
 			return "return " + c08RandExpr(r, 1)
 		case 4:
-			return "return"
+			return "return\n" // a bare return takes what follows on its line
 		case 5:
 			return "break"
 		}
@@ -460,17 +529,19 @@ func c08RandStmt(r *Rand, d int) string {
 	}
 	switch {
 	case x < 45:
-		s := "if " + c08RandExpr(r, 1) + " " + c08RandBlock(r, d)
+		s := "if " + c08RandGuard(r) + " " + c08RandBlock(r, d)
 		if r.Intn(10) < 4 {
-			s += " elif " + c08RandExpr(r, 1) + " " + c08RandBlock(r, d)
+			s += " elif " + c08RandGuard(r) + " " + c08RandBlock(r, d)
 		}
 		if r.Intn(2) == 0 {
 			s += " else " + c08RandBlock(r, d)
 		}
 		return s
 	case x < 55:
-		return "for " + r.Pick([]string{"q in " + c08RandExpr(r, 1), "[q,w] in " + c08RandExpr(r, 1), "x.lim()",
-			"x.lim() and " + c08RandExpr(r, 1)}) + " " + c08RandBlock(r, d)
+		// `q in a > b` would be read as the condition loop `(q in a) > b`: bracket the iterable; every
+		// condition loop is bounded by x.lim()
+		return "for " + r.Pick([]string{"q in (" + c08RandGuard(r) + ")", "[q,w] in (" + c08RandGuard(r) + ")", "x.lim()",
+			"x.lim() and (" + c08RandGuard(r) + ")"}) + " " + c08RandBlock(r, d)
 	case x < 65:
 		return "func " + r.Pick([]string{"g", ""}) + "(" + r.Pick([]string{"", "p", "p, q=1", "p=1,q"}) + ") " + c08RandBlock(r, d)
 	case x < 80:
@@ -488,7 +559,7 @@ func c08RandStmt(r *Rand, d int) string {
 	case x < 87:
 		return "mutex m " + c08RandBlock(r, d)
 	case x < 93:
-		return "sink s kindmatch [\"a\"], priority 1 " + r.Pick([]string{"", "statematch {\"a\":1} ", "suppresses [\"x\"] "}) + c08RandBlock(r, d)
+		return "sink s kindmatch [\"a\"], priority 1" + r.Pick([]string{" ", ", statematch {\"a\":1} ", ", suppresses [\"x\"] "}) + c08RandBlock(r, d)
 	}
 	return "import \"x\" as y"
 }
